@@ -22,6 +22,9 @@ pub mod c06;
 pub mod c09;
 pub mod c08;
 pub mod c17;
+pub mod c05;
+pub mod c02;
+pub mod c04;
 
 pub struct Tier {
     pub thorough: bool,
@@ -141,6 +144,9 @@ pub fn run_property(id: &str, t: &Tier, replay: Option<(String, std::collections
         "C09" => c09::run(&mut pr, t),
         "C08" => c08::run(&mut pr, t),
         "C17" => c17::run(&mut pr, t),
+        "C05" => c05::run(&mut pr, t),
+        "C02" => c02::run(&mut pr, t),
+        "C04" => c04::run(&mut pr, t),
         _ => return None,
     }
     let _ = explore;
